@@ -37,7 +37,10 @@
 //! [`load`]: crate::ArcSwapAny::load
 
 use core::borrow::Borrow;
+#[cfg(not(arc_swap_verif))]
 use core::sync::atomic::AtomicPtr;
+#[cfg(arc_swap_verif)]
+use crate::verif::AtomicPtr;
 
 use crate::ref_cnt::RefCnt;
 
